@@ -240,12 +240,16 @@ def run_priv_generated(u, ctx):
         cands = []
         for dp, dn, fn in os.walk(root):
             os.chmod(dp, 0o755)
+            # nothing beneath a hidden directory is ever accessed by gemato, so an
+            # unreadable object there is no fault the operation could meet
+            hidden = any(c.startswith('.') for c in
+                         os.path.relpath(dp, root).split(os.sep) if c != '.')
             for x in fn:
                 os.chmod(os.path.join(dp, x), 0o644)
-                if not x.startswith('.'):
+                if not x.startswith('.') and not hidden:
                     cands.append(os.path.relpath(os.path.join(dp, x), root))
             for x in dn:
-                if not x.startswith('.'):
+                if not x.startswith('.') and not hidden:
                     cands.append(os.path.relpath(os.path.join(dp, x), root))
         cands.sort()
         target = cands[rng.randrange(len(cands))]
